@@ -429,3 +429,178 @@ fn gen_slot(rng: &mut Rng, field: &Value) -> Value {
 pub fn gen_rows(rng: &mut Rng, field: &Value, n: usize) -> Vec<Value> {
     (0..n).map(|_| gen_slot(rng, field)).collect()
 }
+
+// ------------------------------------------------------------------------------------------------ boundary values
+
+/// chrono's `NaiveDate` range in days since the epoch: -262143-01-01 ..= +262142-12-31
+pub const CHRONO_MIN_DAY: i128 = -96_465_293;
+pub const CHRONO_MAX_DAY: i128 = 95_026_236;
+
+/// Non-null values of a temporal / decimal / float leaf type at and around every boundary the string renderings and
+/// the float conversions have: 0, ±1, the extremes of the physical type, the first and last value chrono can
+/// represent and their outside neighbours, year 0 / -1 and year 9999 / 10000, sub-day and sub-second remainders of
+/// negative values, seconds since midnight at and beyond 86 400, mantissas beyond the decimal precision; for floats
+/// the values whose narrowing to f32 overflows, ties, is subnormal or loses a NaN payload.  (Empty for other types.)
+pub fn boundary_values(dt: &Value) -> Vec<Value> {
+    let ty = dt["t"].as_str().unwrap();
+    let per_sec = |dt: &Value| -> i128 {
+        match dt["unit"].as_str().unwrap() {
+            "Second" => 1,
+            "Millisecond" => 1_000,
+            "Microsecond" => 1_000_000,
+            _ => 1_000_000_000,
+        }
+    };
+    let ints = |vs: Vec<i128>, lo: i128, hi: i128| -> Vec<Value> {
+        let mut out: Vec<i128> = Vec::new();
+        for v in vs {
+            if v >= lo && v <= hi && !out.contains(&v) {
+                out.push(v);
+            }
+        }
+        out.into_iter().map(int_lv).collect()
+    };
+    const DAY_MS: i128 = 86_400_000;
+    const YEAR0: i128 = -719_528; // 0000-01-01
+    const Y9999: i128 = 2_932_896; // 9999-12-31
+    match ty {
+        "Date32" => {
+            let (lo, hi) = int_bounds(ty);
+            ints(
+                vec![0, 1, -1, lo, hi, lo + 1, hi - 1, CHRONO_MAX_DAY, CHRONO_MAX_DAY + 1, CHRONO_MIN_DAY, CHRONO_MIN_DAY - 1, YEAR0, YEAR0 - 1,
+                     YEAR0 + 366, Y9999, Y9999 + 1, 19_000, -5_000, 11_016, 365, -366],
+                lo,
+                hi,
+            )
+        }
+        "Date64" => {
+            let (lo, hi) = int_bounds(ty);
+            ints(
+                vec![0, 1, -1, lo, hi, DAY_MS - 1, DAY_MS, DAY_MS + 1, -DAY_MS, -DAY_MS - 1, -DAY_MS + 1, CHRONO_MAX_DAY * DAY_MS,
+                     CHRONO_MAX_DAY * DAY_MS + DAY_MS - 1, (CHRONO_MAX_DAY + 1) * DAY_MS, CHRONO_MIN_DAY * DAY_MS, CHRONO_MIN_DAY * DAY_MS - 1,
+                     CHRONO_MIN_DAY * DAY_MS + 1, YEAR0 * DAY_MS, YEAR0 * DAY_MS - 1, (Y9999 + 1) * DAY_MS - 1, (Y9999 + 1) * DAY_MS,
+                     1_700_000_000_123, -1_234_567_890, 19_000 * DAY_MS, -5_000 * DAY_MS + 43_200_000],
+                lo,
+                hi,
+            )
+        }
+        "Time32" | "Time64" => {
+            let (lo, hi) = int_bounds(ty);
+            let p = per_sec(dt);
+            ints(
+                vec![0, 1, -1, lo, hi, p - 1, p, p + 1, -p, 86_400 * p - 1, 86_400 * p, 86_400 * p + 1, 86_399 * p, 86_401 * p, 43_200 * p, 3_661 * p + p / 2,
+                     (1i128 << 32) * p, (1i128 << 32) * p - 1, (1i128 << 31) * p, 172_800 * p, 59 * p + p - 1, 60 * p],
+                lo,
+                hi,
+            )
+        }
+        "Timestamp" => {
+            let (lo, hi) = int_bounds(ty);
+            let p = per_sec(dt);
+            let max_s = (CHRONO_MAX_DAY + 1) * 86_400 - 1;
+            let min_s = CHRONO_MIN_DAY * 86_400;
+            ints(
+                vec![0, 1, -1, lo, hi, lo + 1, hi - 1, p, -p, p - 1, -p + 1, -p - 1, 1_700_000_000 * p + p / 3, -1_000_000_000 * p - 1,
+                     max_s * p, max_s * p + p - 1, (max_s + 1) * p, min_s * p, min_s * p - 1, min_s * p + 1, YEAR0 * 86_400 * p, YEAR0 * 86_400 * p - 1,
+                     (Y9999 + 1) * 86_400 * p - 1, (Y9999 + 1) * 86_400 * p, 951_782_400 * p, 68_169_600 * p + 86_399 * p],
+                lo,
+                hi,
+            )
+        }
+        "Duration" => {
+            let (lo, hi) = int_bounds(ty);
+            let p = per_sec(dt);
+            ints(vec![0, 1, -1, lo, hi, lo + 1, hi - 1, p, -p, p - 1, -p - 1, 86_400 * p, -86_400 * p + 1, 3_661 * p + p / 2, 1_000, -1_000, 999, 1_000_000_007], lo, hi)
+        }
+        "Decimal128" => {
+            let p = dt["p"].as_u64().unwrap() as u32;
+            let s = dt["s"].as_i64().unwrap();
+            let top = pow10(p) - 1;
+            let mut vs = vec![0, 1, -1, i128::MIN, i128::MAX, i128::MIN + 1, top, -top, top + 1, -top - 1, 10, -10, 12_345, -12_345, 100, 5, -5, 99, -99,
+                              123_456_789_012_345_678_901_234_567_890_123_456_789, -170_141_183_460_469_231_731_687_303_715_884_105_727];
+            if s > 0 {
+                let u = pow10(s as u32);
+                vs.extend([u, -u, u - 1, -u + 1, u + 1, -u - 1, u / 10, -(u / 10), 10 * u + u / 2]);
+            }
+            ints(vs, i128::MIN, i128::MAX)
+        }
+        "Float64" => {
+            let f32_max = f32::MAX as f64; // 2^128 - 2^104
+            let half_ulp_at_max = 2f64.powi(103);
+            let sub = 2f64.powi(-149); // smallest f32 subnormal
+            let xs: Vec<f64> = vec![
+                0.0, -0.0, 1.0, -1.0, 0.1, -0.3, 1.5, 16_777_216.0, 16_777_217.0, 16_777_219.0, // 2^24+1: tie → even, 2^24+3: tie → even (up)
+                f32_max, -f32_max, f32_max + half_ulp_at_max, -(f32_max + half_ulp_at_max), // tie at the top: rounds to ±inf
+                f64::from_bits((f32_max + half_ulp_at_max).to_bits() - 1), // just below the tie: stays f32::MAX
+                2f64.powi(128), 1e39, -1e39, 1e300, f64::MAX, f64::MIN, f64::INFINITY, f64::NEG_INFINITY,
+                1.0 + 2f64.powi(-24), 1.0 + 3.0 * 2f64.powi(-24), 1.0 + 2f64.powi(-24) + 2f64.powi(-52), 1.0 + 2f64.powi(-24) - 2f64.powi(-53), 1.0 + 2f64.powi(-23),
+                f32::MIN_POSITIVE as f64, (f32::MIN_POSITIVE as f64) * (1.0 - 2f64.powi(-25)), (f32::MIN_POSITIVE as f64) * (1.0 - 2f64.powi(-24)), // rounds up to normal / tie
+                1e-40, -1e-40, 1e-45, sub, -sub, sub / 2.0, -sub / 2.0, f64::from_bits((sub / 2.0).to_bits() + 1), sub * 1.5, sub * 2.5, sub / 4.0, 1e-50,
+                f64::MIN_POSITIVE, f64::from_bits(1), -f64::from_bits(1), 1e-310,
+            ];
+            let mut out: Vec<Value> = xs.iter().map(|x| json!({ "float": x.to_bits().to_string() })).collect();
+            // NaNs: canonical, negative, signalling with a payload only in the bits f32 drops, payload in the kept bits, all ones
+            for b in [0x7FF8_0000_0000_0000u64, 0xFFF8_0000_0000_0000, 0x7FF0_0000_0000_0001, 0x7FF0_0000_1000_0000, 0x7FF4_0000_0000_0000, 0x7FF8_0000_2000_0001, 0x7FFF_FFFF_FFFF_FFFF, 0xFFF0_0000_0000_0001] {
+                out.push(json!({ "float": b.to_string() }));
+            }
+            out
+        }
+        "Float32" => {
+            let mut bits: Vec<u32> = vec![
+                0, 0x8000_0000, 0x3F80_0000, 0xBF80_0000, 0x7F80_0000, 0xFF80_0000, 0x7F7F_FFFF, 0xFF7F_FFFF, 1, 0x8000_0001, 0x007F_FFFF, 0x0080_0000,
+                0x7FC0_0000, 0xFFC0_0000, 0x7F80_0001, 0x7FA0_0000, 0x7FC0_0001, 0x7FFF_FFFF, 0xFF80_0001,
+            ];
+            for x in [0.1f32, -0.3, 1.5, 16_777_216.0, 3.4e38, 1e-40, 123_456.79] {
+                bits.push(x.to_bits());
+            }
+            bits.into_iter().map(|b| json!({ "float": b.to_string() })).collect()
+        }
+        "Float16" => {
+            let bits: Vec<u16> = vec![
+                0, 0x8000, 0x3C00, 0xBC00, 0x7C00, 0xFC00, 0x7BFF, 0xFBFF, 1, 0x8001, 0x03FF, 0x0400, 0x7E00, 0xFE00, 0x7C01, 0x7D00, 0x7E01, 0x7FFF, 0xFC01,
+                0x2E66, 0x3555, 0x4248, 0x6400, 0x0200,
+            ];
+            bits.into_iter().map(|b| json!({ "float": b.to_string() })).collect()
+        }
+        _ => Vec::new(),
+    }
+}
+
+/// rows for `field` in which about three quarters of the non-null slots come from `specials` (each used once before
+/// any repeats, in a random order), the rest from the ordinary value generator
+pub fn gen_rows_with(rng: &mut Rng, field: &Value, n: usize, specials: &[Value]) -> Vec<Value> {
+    let mut order: Vec<usize> = (0..specials.len()).collect();
+    rng.shuffle(&mut order);
+    let mut next = 0usize;
+    let nullable = field["nullable"].as_bool().unwrap_or(false);
+    (0..n)
+        .map(|_| {
+            if nullable && rng.chance(1, 6) {
+                return Value::Null;
+            }
+            if !specials.is_empty() && rng.chance(3, 4) {
+                let v = specials[order[next % order.len()]].clone();
+                next += 1;
+                v
+            } else {
+                gen_value(rng, &field["dt"])
+            }
+        })
+        .collect()
+}
+
+/// `n` distinct field names; `one_char`: every name is a single character (of 1 to 4 bytes)
+pub fn field_names(rng: &mut Rng, n: usize, one_char: bool) -> Vec<String> {
+    if !one_char {
+        return distinct_names(rng, n);
+    }
+    let pool = ["a", "b", "c", "x", "ä", "語", "😀", " ", "0"];
+    let mut out: Vec<String> = Vec::new();
+    while out.len() < n {
+        let cand = rng.pick(&pool).to_string();
+        if !out.contains(&cand) {
+            out.push(cand);
+        }
+    }
+    out
+}
